@@ -66,7 +66,7 @@ class Gen:
         if k == "group":
             return Group(e())
         if k == "u":
-            return Call(r.choice(["uppercase", "lowercase", "trim", "trim_start", "trim_end", "capitalize"]), e())
+            return Call(r.choice(["uppercase", "lowercase", "trim", "trim_start", "trim_end", "capitalize", "encode_uri_component"]), e())
         if k == "q":
             return Call("quote", e())
         if k == "p":
@@ -357,6 +357,38 @@ def run(report):
                            {"correspondence": "C04 join() vs Just.Path.joinPaths", "operands": list(c), "model": m["join"], "impl": jvals.get("v%d" % i)}, no_input=True)
             break
     report.coverage["path_function_calls"] = n_pf
+    # encode_uri_component: strings over ASCII punctuation, letters, digits, control characters and non-ASCII text, passed
+    # through the environment (so that every byte but NUL can occur); against Just.Percent.encode and the README's set
+    UA = ["a", "Z", "0", "9", "-", "_", ".", "!", "~", "*", "'", "(", ")", " ", "%", "/", "?", "&", "=", "+", "#", ":", "@", "$", ",", ";",
+          "[", "]", "\"", "\\", "<", ">", "{", "}", "|", "^", "`", "\t", "\n", "\x7f", "\u00e9", "\u4e2d", "\U0001F600"]
+    utexts = [""] + UA + ["".join(x) for x in _it.product(UA, repeat=2)]
+    urng = C.case_rng(report.seed, 0, "c04-uri")
+    utexts += ["".join(urng.choice(UA) for _ in range(urng.randint(3, 12))) for _ in range(600 if tier == "quick" else 6000)]
+
+    def eval_uri(chunk):
+        with C.scratch("c04u") as d:
+            open(os.path.join(d, "justfile"), "w").write("".join("v%d := encode_uri_component(env('U%d'))\n" % (i, i) for i in range(len(chunk))))
+            env = dict(C.BASE_ENV)
+            env.update({"U%d" % i: t for i, t in enumerate(chunk)})
+            pe = subprocess.run([C.JUST, "--evaluate"], cwd=d, env=env, stdin=subprocess.DEVNULL, stdout=subprocess.PIPE, stderr=subprocess.PIPE)
+            vals = dict(re.findall(r'^(v\d+) +:= "(.*)"$', pe.stdout.decode("utf-8", "replace"), re.M))
+            return [vals.get("v%d" % i) for i in range(len(chunk))]
+
+    uchunks = [utexts[i:i + 300] for i in range(0, len(utexts), 300)]
+    ugot = [x for ch in C.pmap(eval_uri, uchunks) for x in ch]
+    um = drv.pbatch([{"op": "percent", "s": t} for t in utexts], chunk=5000)
+    safe = set("ABCDEFGHIJKLMNOPQRSTUVWXYZabcdefghijklmnopqrstuvwxyz0123456789-_.!~*'()")
+    for t, v, m in zip(utexts, ugot, um):
+        want = "".join(ch if ch in safe else "".join("%%%02X" % b for b in ch.encode("utf-8")) for ch in t)
+        if v != want:
+            report.failure("c04-encode-uri-component", "encode_uri_component(%r) = %r, the README's rule gives %r" % (t, v, want),
+                           {"justfile": "x := encode_uri_component(env('U'))\n", "env": {"U": t}, "argv": ["--evaluate", "x"], "observed": v, "readme": want})
+            break
+        if m["encoded"] != v or not m["roundtrip"]:
+            report.failure("c04-model-percent", "Just.Percent.encode and encode_uri_component disagree on %r" % t,
+                           {"correspondence": "C04 encode_uri_component vs Just.Percent.encode", "text": t, "model": m, "impl": v}, no_input=True)
+            break
+    report.coverage["encode_uri_component_calls"] = len(utexts)
     # the same programs written in a second textual order: values must not depend on it
     cases2 = []
     for (assigns, overrides, text_order, plan, use_set) in cases[: n // 4]:
